@@ -159,6 +159,7 @@ def gen_plan(tape, cfg):
     return {"flavour": flavour, "symbols": symbols, "int_ranges": int_ranges, "mixin": mixin,
             "policy": tape.choice(["uniform", "worst", "best", "first"], "policy"),
             "assumption_style": tape.choice(["z3", "native"], "assumption_style"),
+            "model_scope": tape.choice(["all", "all", "asserted"], "model_scope") if flavour == "bv" else "all",
             "faults": faults, "ops": ops}
 
 
@@ -330,7 +331,8 @@ def execute(plan, tape):
     cls = BruteSUAOptimizer if plan["mixin"] == "sua" else BruteIncrementalOptimizer
     faults = {k: set(v) for k, v in plan.get("faults", {}).items()}
     solver = cls(env, QF_BV if plan["flavour"] == "bv" else QF_LIA, table=table, tape=tape,
-                 policy=plan["policy"], assumption_style=plan["assumption_style"], fault_plan=faults)
+                 policy=plan["policy"], assumption_style=plan["assumption_style"], fault_plan=faults,
+                 model_scope=plan.get("model_scope", "all"))
     budget_per_goal = 4 * table.n + 16
     state = {"limit": None}
     orig_solve = solver._solve
